@@ -152,6 +152,10 @@ def finish_simple(prop, tier, seed, jobs, viols, t0, level, extra_cov=None):
     for j in jobs:
         for k, v in ((j['exec']['stats'] or {}).get('by_kind') or {}).items():
             by_kind[k] = by_kind.get(k, 0) + v
+    import checks
+    missing = [k for k in checks.REQUIRED_EVENTS.get(prop, []) if by_kind.get(k, 0) == 0]
+    if missing and not os.environ.get('VERIF_ALLOW_VACUOUS'):
+        raise ToolError('vacuous run of %s: no event of kind(s) %s was exercised on the implementation' % (prop, missing))
     samples = []
     for j in jobs[:3]:
         if j.get('samples'):
